@@ -685,6 +685,54 @@ func builtFrom(v ssa.Value, match func(ssa.Value) bool) bool {
 	return walk(v, 0)
 }
 
+// establishes: the guard satisfies pred directly, or it is the true edge of
+// a boolean helper of the repository all of whose true answers establish
+// pred (returned under a guard satisfying it, being the test itself, or
+// reached only over edges satisfying it).
+func establishes(g Guard, pred func(g Guard) bool) bool {
+	if pred(g) {
+		return true
+	}
+	if !g.Branch {
+		return false
+	}
+	call, idx := originCallLocal(g.Cond)
+	if call == nil {
+		return false
+	}
+	h := call.Common().StaticCallee()
+	if h == nil || h.Blocks == nil || h.Pkg == nil || !isRepoPath(h.Pkg.Pkg.Path()) || idx >= h.Signature.Results().Len() {
+		return false
+	}
+	if b, ok := h.Signature.Results().At(idx).Type().Underlying().(*types.Basic); !ok || b.Kind() != types.Bool {
+		return false
+	}
+	n := 0
+	for _, lf := range returnLeaves(h, idx) {
+		if k, isK := constOf(lf.Val); isK && (k == nil || !constant.BoolVal(k)) {
+			continue // a false answer does not take the true edge
+		}
+		n++
+		if lf.GuardedBy(pred) || pred(Guard{Cond: lf.Val, Branch: true}) {
+			continue
+		}
+		// every path inside the helper to this answer passes such an edge
+		blk := lf.Block
+		if lf.Into != nil {
+			// the value arrives over the edge blk -> Into: that edge counts
+			gs := lf.Guards()
+			if len(gs) > 0 && pred(gs[0]) {
+				continue
+			}
+		}
+		if mustPass(blk, pred) {
+			continue
+		}
+		return false
+	}
+	return n > 0
+}
+
 // guardedByDeep is guardedBy that also looks into boolean helpers: a guard
 // `if h(x)` (true edge) establishes pred when every way for h to answer true
 // establishes it - the true result is returned under a guard satisfying
